@@ -39,8 +39,8 @@ checks = {
    note="Bounded by the templates. Outside: the second-generation parser, build_header, XML dumps, sources above the real buffer floors (65536 tokens), pointer provenance/alignment.",
    ref="DESIGN.md section 3, C15"),
  "C11": dict(cat="model_checking",
-   text="Type-legality clause: is_wellformed and the can_be_{variable,constant,parameter,returned,struct_member,word_member,sized} predicates are symbolically executed from MIR and proved equal to the documented rules (E350-E356) for every type of nesting depth <= 3 (quick) / 6 (thorough), with the documented consequences (legal implies well-formed, void only as return type, word member sizes). Containment clause: Analyzer::found_container/found_container_1/found_named_lengths, use_constant/use_containee and determine_container_depths (scoper/variable_references.rs) executed from MIR as ONE step from an ARBITRARY analyzer state of up to 4 containers (thorough also 6 with leaf types) with symbolic ids, kinds and HashSet<u32> contents, constrained only by the representation invariant (distinct ids, contained ids declared, irreflexive, transitively closed), on a symbolic contained type of depth <= 2: the step is rejected iff the type depends (structures/words by value, array-length constants anywhere) on the container or on something containing it (E413 for constants, E415/E416 for members), an accepted step records exactly the new reachability, preserves the invariant and returns the type unchanged; a name used in a constant expression resolves to the constant of that name (E402, E433 otherwise) and records the dependency; depths are 0 for empty containers and 1 + the deepest containee otherwise. The invariant holds initially and is preserved, so the clauses hold after error-free histories of any length. Typer clauses: fix_type_for_flags/externalize_type for every well-formed type of depth <= 3 (4), every context and both extern settings: behind extern a type is accepted iff it is built from pointers, views and array views over i8..i64, u8..u64, usize, char8 (E358 otherwise) and is rewritten as documented; Typer::align_struct on up to 3 (5) members with symbolic word-member types and a symbolic declared size: accepted iff the naturally aligned, padded layout fits (E380 otherwise, with both sizes in bits), no overflow.",
-   note="Bounded by type nesting depth, number of containers and an 8-bit id set. Outside: declaration order independence of whole programs, duplicate names (E421-E426), analyzer states after the first reported cycle, where in the pipeline the typer rules are applied (only the rules themselves are decided). Vacuity witnesses (must be sat) guard the containment premises.",
+   text="Type-legality clause: is_wellformed and the can_be_{variable,constant,parameter,returned,struct_member,word_member,sized} predicates are symbolically executed from MIR and proved equal to the documented rules (E350-E356) for every type of nesting depth <= 3 (quick) / 6 (thorough), with the documented consequences (legal implies well-formed, void only as return type, word member sizes). Containment clause: Analyzer::found_container/found_container_1/found_named_lengths, use_constant/use_containee and determine_container_depths (scoper/variable_references.rs) executed from MIR as ONE step from an ARBITRARY analyzer state of up to 4 containers (thorough also 6 with leaf types) with symbolic ids, kinds and HashSet<u32> contents, constrained only by the representation invariant (distinct ids, contained ids declared, irreflexive, transitively closed), on a symbolic contained type of depth <= 2: the step is rejected iff the type depends (structures/words by value, array-length constants anywhere) on the container or on something containing it (E413 for constants, E415/E416 for members), an accepted step records exactly the new reachability, preserves the invariant and returns the type unchanged; a name used in a constant expression resolves to the constant of that name (E402, E433 otherwise) and records the dependency; depths are 0 for empty containers and 1 + the deepest containee otherwise. The invariant holds initially and is preserved, so the clauses hold after error-free histories of any length. Typer clauses: fix_type_for_flags/externalize_type for every well-formed type of depth <= 3 (4), every context and both extern settings: behind extern a type is accepted iff it is built from pointers, views and array views over i8..i64, u8..u64, usize, char8 (E358 otherwise) and is rewritten as documented; Typer::align_struct on up to 4 (5) members with symbolic word-member types and a symbolic declared size: accepted iff the naturally aligned, padded layout fits (E380 otherwise, with both sizes in bits), no overflow; the fixed type of a well-formed type is well-formed. Duplicate names: the six declare_* functions as one step from an arbitrary state: rejected with the code of their kind (E421-E426) iff a declaration of that name is visible in the name space, recorded with a fresh id either way, nothing else changes.",
+   note="Bounded by type nesting depth, number of containers and an 8-bit id set. Outside: declaration order independence of whole programs beyond the per-step rules, analyzer states after the first reported cycle, where in the pipeline the typer rules are applied (only the rules themselves are decided). Vacuity witnesses (must be sat) guard the containment premises.",
    ref="DESIGN.md section 3, C11"),
  "C13": dict(cat="model_checking",
    text="Code-catalogue clause only: Error::code is symbolically executed from MIR over a fully symbolic Error value and z3 decides, for all variants x lexical sub-errors, that the returned code has a heading in docs/errors.md (all counter-models enumerated). Loop-free, so no bound is needed, but the claim covers only this clause of C13.",
@@ -66,7 +66,7 @@ m = {
  "setup_cmd": "./setup.sh",
  "hooks": {"guard": "cargo features verif / verif_small_buffers",
            "enable": "--features verif_small_buffers (Kani harness crates); the MIR-based checks use the unhooked crate",
-           "baseline_off_cmd": "python3 /verif/lib/baseline.py", "source_commits": ["ecc0424", "2ff211b", "4dd7126", "cb3acb4", "32a0e2f", "e7be6da", "35f1c84", "b36789d", "a86b5a8", "f5fa45e"], "add_only": True},
+           "baseline_off_cmd": "python3 /verif/lib/baseline.py", "source_commits": ["ecc0424", "2ff211b", "4dd7126", "cb3acb4", "32a0e2f", "e7be6da", "35f1c84", "b36789d", "a86b5a8", "f5fa45e", "89c3cb8"], "add_only": True},
  "engines": [
   {"name": "E-MIR", "path": "mir/", "serves_properties": sorted(checks),
    "kind_free_text": "bounded symbolic execution of rustc MIR (nightly -Zunpretty=mir of /repo's working tree) into z3 bit-vector terms; verdicts cross-checked on z3 4.8.12 and cvc5; translation validated natively through replay/"},
